@@ -1695,3 +1695,66 @@ def distribution(cases_, results):
             o = 'cat/op:' + r['out'].get('exc', 'ok')
             d['outcomes'][o] = d['outcomes'].get(o, 0) + 1
     return d
+
+
+# ---- translator tie: coq/gen/PDataGen.v regenerated from the source under test (translate/pypdata2coq.py) ----
+GEN = 'gen/PDataGen.v'
+TRUSTED += ['translate/pypdata2coq.py (fail-closed AST translator of pipeline.normalize_index and PipelineData.__getitem__ to '
+            'coq/gen/PDataGen.v, statement by statement; it pins on their exact text: `obj = super().__getitem__(s)` (NumPy\'s own '
+            'indexing + __array_finalize__ - NOT translated: the modelled primitive np_super_getitem = np_getitem + finalize_chan of '
+            'coq/PData/Model.v), `if not hasattr(obj, \'metadata\'): return obj` (a scalar result), `skip = object()` (the sentinel), '
+            'the dead statement `obj.s0 += time_slice` after `raise NotImplementedError`, the body `return self.shape[-1]` of the '
+            'property n_time, the base class np.ndarray, `all(isinstance(t, (bool, np.bool_)) and t for t in time_slice)` (the all-True '
+            'test of a list on the time axis), `np.s_[x]` = x, `obj.fs / step` as the exact fraction; an if / elif chain that only binds '
+            'new names raises UnboundLocalError when no branch is taken; docstrings and comments are ignored; self-tested on every '
+            'run: the emitted definitions are evaluated by coqc (vm_compute) on ~390 index values / arrays against the real functions)',
+            'the Python / NumPy primitives of coq/PData/TieLib.v as modelled (exercised by that self-test, not proved): the value '
+            'universe pyval (int, np.integer, slice, list of ints, list of bools, 1-D integer / boolean ndarray, Ellipsis, None, the '
+            'sentinel, tuples), isinstance / identity tests on it, int(), .dtype == bool, .size, .ndim (1), .all(), .tolist(), len, '
+            'iteration and unpacking of tuples, slice.start / .step, int-or-None used as a number (TypeError on None), python list '
+            'indexing of label / metadata lists (lab_getitem: Common/PySlice.v), np.arange(n)[list], [l[s] for s in idx], '
+            'np.array(l)[list].tolist(), len of a scalar label (TypeError); labels and metadata entries are identifiers as in the model']
+ASSUMPTIONS += ['translator tie: the equality generated __getitem__ = model is proved when NumPy raises, returns a genuine scalar or an '
+                'array of 1 to 3 dimensions (np_plain; every case in which the model returns an annotated array, hence every C11 theorem); '
+                'for a 0-d array obtained with an Ellipsis and for results above 3-D (both always an error in the model) it is tested '
+                'only; index values are those of the universe (tuples one level deep, 1-D index arrays; an annotated array used as an '
+                'index is outside it: known finding getitem:annotated-array-used-as-index-skips-fixup)']
+
+
+def translate(repo):
+    """Regenerate coq/gen/PDataGen.v from <repo>/psiaudio/pipeline.py and self-test it.  A source the translator cannot digest, a
+    generated file that does not type-check or a failed self-test raise: the driver reports a broken tie (fail closed)."""
+    import random
+    import sys
+    import vlib
+    from translate import pypdata2coq
+    path = os.path.join(vlib.COQ, GEN)
+    head = ('(* GENERATED on every run by harness/C11.py translate() with translate/pypdata2coq.py from\n'
+            f'   {repo}/psiaudio/pipeline.py - do not edit.  Vocabulary: coq/PData/TieLib.v.  Tie theorems: coq/PData/ProofsTie.v. *)\n')
+    try:
+        text, info = pypdata2coq.translate(repo)
+    except pypdata2coq.TranslatorGap as e:
+        msg = ''.join(ch if ch.isalnum() or ch in " _.,:;()[]{}=+-*/<>'`" else ' ' for ch in str(e))
+        msg = msg.replace('(*', '( *').replace('*)', '* )')[:400]
+        with open(path, 'w') as f:          # deliberately ill-typed: whoever builds it sees the reason
+            f.write(head + 'From Coq Require Import ZArith String.\n' + f'Definition translator_gap : Z :=\n  "{msg}"%string.\n')
+        raise
+    with open(path, 'w') as f:              # always rewritten: always re-checked
+        f.write(head + text)
+    rc, out = vlib.coq_build('gen/PDataGen.vo')
+    if rc != 0:
+        raise pypdata2coq.TranslatorGap('the generated file does not type-check: ' + out[-800:])
+    vlib.use_repo()
+    import psiaudio.pipeline as pipeline
+    if os.path.realpath(pipeline.__file__) != os.path.realpath(os.path.join(repo, 'psiaudio', 'pipeline.py')):
+        raise vlib.MachineryError(f'psiaudio.pipeline is {pipeline.__file__}, not the translated source under {repo}')
+    terms = pypdata2coq.selftest_terms(pipeline, random.Random(7))
+    try:
+        failing = vlib.run_cases(PROP, ['PData.TieLib', 'gen.PDataGen'], terms, tag='tieself')
+    except vlib.MachineryError as e:
+        raise pypdata2coq.TranslatorGap('self-test could not be evaluated: ' + str(e)[-600:])
+    if failing:
+        raise pypdata2coq.TranslatorGap(f'self-test: the generated definitions disagree with the real functions on {len(failing)} of '
+                                        f'{len(terms)} inputs, first: {terms[failing[0]]}')
+    info.update(gen_files=[GEN], primitives=pypdata2coq.PRIMITIVES, selftest={'evaluations': len(terms), 'failing': 0})
+    return info
